@@ -287,7 +287,7 @@ func (e *Env) evalTerm(v any) (Oct, error) {
 			out := octOf(x)
 			copy(out[off:], w)
 			return out, nil
-		case "findexp": // smallest exponent >= from whose public value g^x mod m has >= lz leading zero octets
+		case "findexp": // smallest exponent >= from whose public value g^x mod m has >= lz leading and >= tz trailing zero octets
 			mod, err := sub("m")
 			if err != nil {
 				return nil, err
@@ -299,11 +299,20 @@ func (e *Env) evalTerm(v any) (Oct, error) {
 			P := new(big.Int).SetBytes(mod)
 			x := new(big.Int).SetBytes(from)
 			lz := gi(m, "lz")
+			tz := 0
+			if _, ok := m["tz"]; ok {
+				tz = gi(m, "tz")
+			}
 			one := big.NewInt(1)
 			g := big.NewInt(int64(gi(m, "g")))
 			for i := 0; i < 1<<22; i++ {
 				r := new(big.Int).Exp(g, x, P)
-				if len(mod)-len(r.Bytes()) >= lz {
+				rb := r.Bytes()
+				nt := 0
+				for nt < len(rb) && rb[len(rb)-1-nt] == 0 {
+					nt++
+				}
+				if len(mod)-len(rb) >= lz && nt >= tz && len(rb) > 0 {
 					return Oct(x.Bytes()), nil
 				}
 				x.Add(x, one)
